@@ -18,7 +18,7 @@ import (
 
 func main() {
 	hk.Main(&hk.Component{Name: "middleware",
-		Rule: "real Streamable HTTP servers (stateful JSON answers, stateful SSE-framed answers, stateless, sessions disabled) and real legacy SSE servers built with " +
+		Rule: "exhaustive part: real Streamable HTTP servers (stateful JSON answers, stateful SSE-framed answers, stateless, sessions disabled) and real legacy SSE servers built with " +
 			"instrumented middlewares through WithMiddleware / WithSSEMiddleware in every option form (one option, one option per middleware, mixed split, an extra empty option); " +
 			"every chain up to length 4 (quick) / 5 (thorough) over {pass, modify-request, modify-result, short-circuit with a result, short-circuit with a JSON-RPC error, fail} x " +
 			"9 methods (tools/call echo / failing tool / unknown tool, tools/list, prompts/list, resources/list, ping, initialize, unknown method) plus seeded random chains of length 5..10, " +
@@ -26,6 +26,16 @@ func main() {
 			"fail includes errors wrapping context.DeadlineExceeded / context.Canceled that do not stem from the HTTP request; pairs of servers built from one shared middleware slice with spare capacity; " +
 			"rounds of overlapping requests of two sessions that carry equal JSON-RPC ids (numeric and string), overlap enforced by an event-based rendezvous inside the tool; " +
 			"per-request trace keyed by a nonce in the request parameters, every stage records the context token (HTTP context function) and session it sees; " +
+			"session matrix: every server configuration x response mode — {stateful, stateless, sessions disabled} x {Accept: application/json, Accept: application/json + text/event-stream} x " +
+			"{POST-SSE enabled, disabled} (12 Streamable configurations) and legacy SSE — with three instrumented middlewares in two option forms, all 216 chains over the six behaviours x " +
+			"{tools/call echo, failing tool, tools/list, prompts/list, resources/list, ping, initialize} (2 methods per chain quick, all 7 thorough) on both sessions: per-request evaluation plus the session each " +
+			"stage (before/after) and the method handler sees (GetSessionFromContext, the tool also ClientSessionFromContext) compared between all stages and the handler; stateless: no two requests share a temporary session; " +
+			"option orders on both constructors (mcp.NewServer, mcp.NewSSEServer): two middleware options against every other option X the constructor accepts as [rest…, mw, X, mw], [X, mw, mw, rest…], [rest, mw, mw, X, rest] " +
+			"(Streamable: WithServerLogger, WithServerPath (URL adapted), WithGetSSEEnabled, WithPostSSEEnabled, WithStatelessMode, WithoutSession (only on a server without sessions), WithNotificationBufferSize, WithHTTPContextFunc, " +
+			"WithToolListFilter, WithPromptListFilter, WithResourceListFilter, WithServerAddress, WithCustomServer, and the post-construction method SetMethodNameModifier on every other server; legacy SSE: WithSSEServerLogger, WithBasePath, " +
+			"WithMessageEndpoint, WithSSEEndpoint (URLs adapted), WithHTTPServer, WithKeepAlive, WithKeepAliveInterval, WithSSEContextFunc, WithSSEToolListFilter, WithSSEPromptListFilter, WithSSEResourceListFilter, " +
+			"WithSSESessionIDGenerator; no option is skipped — WithServerAddress / WithCustomServer / WithHTTPServer only matter to Start(), which is not called in-process, and are applied all the same) plus 16 (quick) / 160 (thorough) seeded random permutations of ALL " +
+			"options with 2–4 middleware options (sometimes an empty one) interleaved; through each such server six requests (marks of all stages in the echo, tools/list, last stage short-circuits, first stage refuses, a stage fails); " +
 			"non-trivial = a distinct (transport, option form, chain, method) with at least two stages of which one is not pass-through",
 		Run: run})
 }
@@ -106,6 +116,8 @@ type tcase struct {
 	which    int
 	newSess  bool
 	tags     []string
+	order    []string // explicit option order of the server (nil = classic)
+	post     bool     // the server's post-construction configuration methods are called too
 	// filled by the run
 	events []event
 	ans    answer
@@ -123,6 +135,14 @@ func srvKey(k kind, groups [][]int, emptyOpt bool) string {
 		p = append(p, fmt.Sprint(len(g)))
 	}
 	return fmt.Sprintf("%s|%s|%v", k.Name, strings.Join(p, ","), emptyOpt)
+}
+
+func (tc *tcase) srvKey() string {
+	key := srvKey(tc.k, tc.groups, tc.emptyOpt)
+	if tc.order != nil {
+		key += "|" + strings.Join(tc.order, ",") + fmt.Sprintf("|%v", tc.post)
+	}
+	return key
 }
 
 // partitions of 0..k-1 into consecutive groups: the option forms.
@@ -170,6 +190,41 @@ type baseline struct {
 	base string
 }
 
+// ensureBase measures what each method gives on a server of this kind without middlewares (once per kind).
+func ensureBase(bases map[string]map[string]baseline, k kind) {
+	if _, ok := bases[k.Name]; ok {
+		return
+	}
+	s, err := newServer(k, nil, false)
+	if err != nil {
+		panic(fmt.Sprintf("baseline server %s: %v", k.Name, err))
+	}
+	bases[k.Name] = map[string]baseline{}
+	for _, m := range methods {
+		body := map[string]any{"jsonrpc": "2.0", "id": s.nextID.Add(1), "method": m.Method, "params": m.params("baseline")}
+		a := s.send(body, "setup", 0, false, true)
+		if a.problem != "" || a.msg == nil {
+			panic(fmt.Sprintf("baseline %s %s: %s (status %d)", k.Name, m.Name, a.problem, a.status))
+		}
+		if e, ok := a.msg["error"].(map[string]any); ok {
+			code, _ := e["code"].(float64)
+			msg, _ := e["message"].(string)
+			bases[k.Name][m.Name] = baseline{core: map[string]any{"k": "rpc", "code": int(code), "msg": msg}}
+			continue
+		}
+		if rm, ok := a.msg["result"].(map[string]any); ok {
+			sortListing(rm)
+		}
+		rb, _ := json.Marshal(a.msg["result"])
+		bases[k.Name][m.Name] = baseline{core: map[string]any{"k": "ok", "echo": m.Echo}, base: string(rb)}
+	}
+	s.close()
+	// sanity of the fixture (not of the property): the echo tool must answer "echo []" without middlewares
+	if !strings.Contains(bases[k.Name]["toolsCall"].base, `"echo []"`) {
+		panic("fixture: echo tool baseline of " + k.Name + " is " + bases[k.Name]["toolsCall"].base)
+	}
+}
+
 func run(c *hk.Ctx) {
 	maxLen := 4
 	nRandom := 200
@@ -190,36 +245,7 @@ func run(c *hk.Ctx) {
 	// ---- baselines: what each method gives on a server without middlewares, per kind of server
 	bases := map[string]map[string]baseline{}
 	for _, k := range kinds {
-		s, err := newServer(k, nil, false)
-		if err != nil {
-			panic(fmt.Sprintf("baseline server %s: %v", k.Name, err))
-		}
-		bases[k.Name] = map[string]baseline{}
-		for _, m := range methods {
-			body := map[string]any{"jsonrpc": "2.0", "id": s.nextID.Add(1), "method": m.Method, "params": m.params("baseline")}
-			a := s.send(body, "setup", 0, false, true)
-			if a.problem != "" || a.msg == nil {
-				panic(fmt.Sprintf("baseline %s %s: %s (status %d)", k.Name, m.Name, a.problem, a.status))
-			}
-			if e, ok := a.msg["error"].(map[string]any); ok {
-				code, _ := e["code"].(float64)
-				msg, _ := e["message"].(string)
-				bases[k.Name][m.Name] = baseline{core: map[string]any{"k": "rpc", "code": int(code), "msg": msg}}
-				continue
-			}
-			if rm, ok := a.msg["result"].(map[string]any); ok {
-				sortListing(rm)
-			}
-			rb, _ := json.Marshal(a.msg["result"])
-			bases[k.Name][m.Name] = baseline{core: map[string]any{"k": "ok", "echo": m.Echo}, base: string(rb)}
-		}
-		s.close()
-	}
-	// sanity of the fixture (not of the property): the echo tool must answer "echo []" without middlewares
-	for _, k := range kinds {
-		if !strings.Contains(bases[k.Name]["toolsCall"].base, `"echo []"`) {
-			panic("fixture: echo tool baseline is " + bases[k.Name]["toolsCall"].base)
-		}
+		ensureBase(bases, k)
 	}
 
 	// ---- cases
@@ -231,6 +257,9 @@ func run(c *hk.Ctx) {
 	}
 	if replay != nil {
 		cases = replayCases(replay)
+		for _, tc := range cases {
+			ensureBase(bases, tc.k)
+		}
 	} else {
 		for _, k := range kinds {
 			for n := 0; n <= maxLen; n++ {
@@ -285,7 +314,7 @@ func run(c *hk.Ctx) {
 	groups := map[string][]*tcase{}
 	var order []string
 	for _, tc := range cases {
-		key := srvKey(tc.k, tc.groups, tc.emptyOpt)
+		key := tc.srvKey()
 		if _, ok := groups[key]; !ok {
 			order = append(order, key)
 		}
@@ -295,17 +324,27 @@ func run(c *hk.Ctx) {
 	for si, key := range order {
 		g := groups[key]
 		tc0 := g[0]
-		s, err := newServer(tc0.k, tc0.groups, tc0.emptyOpt)
+		s, err := buildServer(buildSpec{k: tc0.k, groups: tc0.groups, emptyOpt: tc0.emptyOpt, reg: &registry{}, order: tc0.order, post: tc0.post})
 		if err != nil {
 			panic(fmt.Sprintf("server %s: %v", key, err))
 		}
 		nServers++
 		runGroup(c, s, g, si, key, bases)
+		if replay != nil {
+			for _, tc := range g {
+				sessionOracle(c, s, tc)
+				if tc.order != nil {
+					optionOrderOracle(c, s, tc, bases[s.k.Name][tc.m.Name])
+				}
+			}
+		}
 		s.close()
 	}
 	if replay == nil {
 		nServers += sharedSlicePairs(c, bases, len(order))
 		nServers += idCollisions(c, bases, len(order)+100)
+		nServers += sessionMatrix(c, bases, len(order)+200)
+		nServers += optionOrders(c, bases, len(order)+400)
 	}
 	c.SetExtra("servers", nServers)
 	c.SetExtra("cases", len(cases))
@@ -605,7 +644,7 @@ func multiset(l []string) string {
 }
 
 func evaluate(c *hk.Ctx, s *server, tc *tcase, b baseline) {
-	input := map[string]any{"kind": tc.k.Name, "groups": tc.groups, "emptyOption": tc.emptyOpt, "method": tc.m.Name, "plan": optsJSON([][]int{planIDs(tc.plan)}, tc.plan)[0]}
+	input := tc.input()
 	wantTags, wantResp := expect(tc.plan, b, tc.m)
 	gotTags := tagsOf(tc.events)
 	suffix := ":" + tc.k.Tr
@@ -729,9 +768,26 @@ func evaluate(c *hk.Ctx, s *server, tc *tcase, b baseline) {
 	if tc.emptyOpt {
 		opts = append(opts, []any{})
 	}
-	c.Emit(map[string]any{"c": "middleware.run", "tr": tc.k.Tr, "opts": opts, "core": b.core, "hobs": tc.m.Hobs, "mods": []int{},
-		"kind": tc.k.Name, "method": tc.m.Name},
-		map[string]any{"trace": trace, "resp": gotResp}, nontrivial, tags...)
+	op := map[string]any{"c": "middleware.run", "tr": tc.k.Tr, "opts": opts, "core": b.core, "hobs": tc.m.Hobs, "mods": []int{},
+		"kind": tc.k.Name, "method": tc.m.Name}
+	if tc.order != nil {
+		// the full option order: the model registers through it ("mw:<i>" = opts[i], anything else = another option of that name)
+		op["order"] = tc.order
+	}
+	c.Emit(op, map[string]any{"trace": trace, "resp": gotResp}, nontrivial, tags...)
+}
+
+// input of a case as written into violations (and read back by replayCases).
+func (tc *tcase) input() map[string]any {
+	in := map[string]any{"kind": tc.k.Name, "groups": tc.groups, "emptyOption": tc.emptyOpt, "method": tc.m.Name, "plan": optsJSON([][]int{planIDs(tc.plan)}, tc.plan)[0]}
+	if tc.k.Tr == "streamable" {
+		in["config"] = map[string]any{"mode": tc.k.Mode, "acceptEventStream": tc.k.AcceptSSE, "postSSEEnabled": tc.k.PostSSE}
+	}
+	if tc.order != nil {
+		in["order"] = tc.order
+		in["postConstructionMethods"] = tc.post
+	}
+	return in
 }
 
 func planIDs(p []stage) []int {
@@ -794,15 +850,20 @@ func runNotifications(c *hk.Ctx, s *server, si int) {
 
 // replayCases rebuilds the single case of a replay file written by ./check (the `input` of a violation).
 func replayCases(in map[string]any) []*tcase {
-	var k kind
-	for _, x := range kinds {
-		if x.Name == in["kind"] {
-			k = x
-		}
-	}
-	if k.Name == "" {
+	kn, _ := in["kind"].(string)
+	k, ok := kindByName(kn)
+	if !ok {
 		return nil
 	}
+	var order []string
+	if ol, ok := in["order"].([]any); ok {
+		for _, o := range ol {
+			if os, ok := o.(string); ok {
+				order = append(order, os)
+			}
+		}
+	}
+	post, _ := in["postConstructionMethods"].(bool)
 	var groups [][]int
 	if gl, ok := in["groups"].([]any); ok {
 		for _, g := range gl {
@@ -836,7 +897,7 @@ func replayCases(in map[string]any) []*tcase {
 			continue
 		}
 		eo, _ := in["emptyOption"].(bool)
-		out = append(out, &tcase{k: k, groups: groups, emptyOpt: eo, plan: plan, m: m, tags: []string{"replay"}})
+		out = append(out, &tcase{k: k, groups: groups, emptyOpt: eo, plan: plan, m: m, order: order, post: post, tags: []string{"replay"}})
 	}
 	return out
 }
